@@ -10,7 +10,7 @@
                     <nmap>    {<key> <value>}*                           (blockmap)
   names are `x` + hex; rationals `num/den` or integers.
 
-  reply     ok <hyp bits: Fresh LayersWF NodupBlocks NodupConns parseOk> T <exact 0|1> <tx> <ty> <tz>
+  reply     ok <hyp bits: Fresh LayersWF NodupBlocks NodupConns parseOk ConnsWF> T <exact 0|1> <tx> <ty> <tz>
                NL <ok n {name}* | exc E>       (setup_block_name_index recomputed)
                CL <ok n {name name}* | exc E>  (setup_block_connection_name_index)
                G <ok B n {name vol|- cx cy cz|- atm}* K n {b0 b1 dirn d0c d0r d1c d1r ac ar cc cr}* | exc E>
@@ -166,7 +166,7 @@ def handleFromgeo (r : Req) : String :=
     | .ok l => decide ((l.map (mapPair r.map)).Nodup)
     | .error _ => false
   -- hypotheses of the property theorems, evaluated on this case
-  let fresh := b (decide (Fresh g)) ++ b (decide (LayersWF g)) ++ b nodupB ++ b nodupC ++ b (parseOk g)
+  let fresh := b (decide (Fresh g)) ++ b (decide (LayersWF g)) ++ b nodupB ++ b nodupC ++ b (parseOk g) ++ b (decide (ConnsWF g))
   s!"ok {fresh} T {if r.tiltOk then 1 else 0} {showRat g.tilt.x} {showRat g.tilt.y} {showRat g.tilt.z} NL " ++
     showEx (fun (l : List Str) => s!"{l.length} " ++ " ".intercalate (l.map showName)) (blockNameList g) ++ " CL " ++
     showEx (fun (l : List (Str × Str)) => s!"{l.length} " ++ " ".intercalate (l.map fun p => showName p.1 ++ " " ++ showName p.2))
